@@ -462,6 +462,21 @@ func gen(a Args, out *Out) {
 		}
 	}
 
+	// 8b. larger heap shapes (drv.HeapShapes): 8..30 pending timers, each position cancelled
+	// and removed in turn, further starts afterwards, then tick by tick to the last deadline
+	{
+		srng := NewRng(a.Seed*69069 + 8)
+		big := 3
+		if a.Thorough() {
+			big = 40
+		}
+		for sh := 0; sh < big; sh++ {
+			for _, h := range drv.HeapShapes(srng.Fork(), sh) {
+				emit("heap-shapes-large", h)
+			}
+		}
+	}
+
 	// 9. stale index: a due timer is cancelled, the tick is handled first (the worker drops
 	// the node), then a start request is handled (a new node takes the freed array
 	// position), and only THEN the old cancel request: it must not remove anybody; all
